@@ -104,6 +104,7 @@ type Machine struct {
 	depthMark int
 	lits      map[*sym.Term]bool
 	hints     map[int]int64
+	jsonMemos []jsonMemo
 }
 
 type frozenSnap struct {
